@@ -334,19 +334,20 @@ static void Array_Push(var self, var obj) {
 
 static void Array_Push_At(var self, var obj, var key) {
   struct Array* a = self;
-  a->nitems++;
-  Array_Reserve_More(a);
   
   int64_t i = c_int(key);
-  i = i < 0 ? a->nitems+i : i;
+  i = i < 0 ? (a->nitems+1)+i : i;
   
 #if CELLO_BOUND_CHECK == 1
-  if (i < 0 or i >= (int64_t)a->nitems) {
+  if (i < 0 or i > (int64_t)a->nitems) {
     throw(IndexOutOfBoundsError,
       "Index '%i' out of bounds for Array of size %i.", key, $I(a->nitems));
     return;
   }
 #endif
+  
+  a->nitems++;
+  Array_Reserve_More(a);
   
   memmove((char*)a->data + Array_Step(a) * (i+1),
           (char*)a->data + Array_Step(a) * (i+0), 
